@@ -302,7 +302,13 @@ int gen_array(GenState& gs, Rng& r, json const& spec, int depth, double const lo
                 Real3 c{0.5 * (arr.grid[0][i] + arr.grid[0][i + 1]),
                         0.5 * (arr.grid[1][j] + arr.grid[1][j + 1]),
                         0.5 * (arr.grid[2][k] + arr.grid[2][k + 1])};
-                d.transform = Translation(c);
+                // a daughter universe covers all space, so it may also sit
+                // untranslated (origin at the array origin) or anywhere else
+                double u = r.uniform();
+                if (u < 0.25)
+                    d.transform = NoTransformation{};
+                else
+                    d.transform = Translation(c);
                 arr.daughters.push_back(d);
             }
     ++gs.stats.arrays;
